@@ -2,11 +2,13 @@
 from __future__ import annotations
 
 import ast
+from typing import List, Optional
 
 from ..axes import source
 from ..core import Ctx
+from ..loader import AnalysisError
 from ..specs import layout as L
-from ..symex import expand, u
+from ..symex import SUMMARIZER, expand, u
 from . import layouts as LY
 from .common import data_labels, measure_blocks_reads, slice_measures_obj, strand_measures_obj
 
@@ -117,12 +119,13 @@ def hidden_set(ctx: Ctx):
     )
     # hidden insertions are dropped when the subtotals are enumerated
     st = ctx.repo.cls("dimension.py", "_Subtotals")
-    m = ctx.repo.lookup(st, "_iter_valid_subtotal_dicts")
-    found = any(
-        isinstance(n, ast.If) and u(n.test) == "insertion_dict.get('hide') is True" and any(isinstance(x, ast.Continue) for x in n.body)
-        for n in ast.walk(m.node)
-    )
-    ctx.ob("hidden-insertions", "dimension.py::_Subtotals._iter_valid_subtotal_dicts", found, True, found, "an insertion flagged hidden is skipped")
+    from ..stmts import collect_test_atoms, match_atom
+
+    if ctx.repo.lookup(st, "_iter_valid_subtotal_dicts") is None:
+        raise AnalysisError("_Subtotals._iter_valid_subtotal_dicts vanished")
+    cands = collect_test_atoms(ctx.repo, st, "_iter_valid_subtotal_dicts")
+    ok, why = match_atom(cands, "insertion_dict.get('hide') is True")
+    ctx.ob("hidden-insertions", "dimension.py::_Subtotals._iter_valid_subtotal_dicts", [u(c)[:60] for c in cands][:8], "insertion_dict.get('hide') is True", ok, why or "an insertion flagged hidden is skipped")
 
 
 def subtotal_rule(ctx: Ctx):
@@ -187,8 +190,49 @@ def subtotal_rule_dependence(ctx: Ctx):
             ctx.ob("subtotal-pruning.dependence", where, f"reads prune flag, element ids, emptiness from {labels}", "... from ['U']", labels == ["U"], "emptiness of the opposing vectors is decided from unweighted counts")
 
 
+def _hidden_cond(cond: ast.expr) -> bool:
+    from ..exprdiff import canon
+
+    t = u(canon(cond))
+    return t in ("idx not in hidden_idxs", "idx not in self._hidden_idxs") or (t.startswith("idx not in ") and "hidden" in t)
+
+
+def _unfiltered_sources(e: ast.expr, out: List[str]) -> Optional[bool]:
+    """Must-pass-through on the value of a display order: does every source sequence reach the result through a
+    `idx not in hidden` filter?  -> True (all filtered) / False (an unfiltered source, appended to `out`) / None
+    (an expression form this analysis does not understand)."""
+    if isinstance(e, (ast.ListComp, ast.GeneratorExp, ast.SetComp, ast.DictComp)):
+        if any(_hidden_cond(c) for g in e.generators for c in g.ifs):
+            return True
+        if len(e.generators) != 1:
+            return None
+        return _unfiltered_sources(e.generators[0].iter, out)
+    if isinstance(e, ast.Call):
+        f = u(e.func)
+        if f in ("tuple", "list", "sorted", "dict.fromkeys", "reversed", "iter", "frozenset", "set") and e.args:
+            return _unfiltered_sources(e.args[0], out)
+        if f in ("__mutated__",) and e.args:
+            return _unfiltered_sources(e.args[0], out)
+        if f == "itertools.chain":
+            rs = [_unfiltered_sources(a, out) for a in e.args]
+            return None if None in rs else all(rs)
+        return None
+    if isinstance(e, ast.BinOp) and isinstance(e.op, ast.Add):
+        l, r = _unfiltered_sources(e.left, out), _unfiltered_sources(e.right, out)
+        return None if None in (l, r) else (l and r)
+    if isinstance(e, ast.IfExp):
+        l, r = _unfiltered_sources(e.body, out), _unfiltered_sources(e.orelse, out)
+        return None if None in (l, r) else (l and r)
+    if isinstance(e, (ast.Attribute, ast.Name)):
+        out.append(u(e))
+        return False
+    if isinstance(e, ast.Tuple) and not e.elts:
+        return True
+    return None
+
+
 def filters(ctx: Ctx):
-    """Every display order filters `idx not in hidden`."""
+    """Every display order filters `idx not in hidden` - on every source sequence that reaches it."""
     for cname, member in (
         ("_BaseAnchoredCollator", "_display_order"),
         ("PayloadOrderCollator", "payload_order"),
@@ -196,13 +240,15 @@ def filters(ctx: Ctx):
     ):
         ci = ctx.repo.cls("collator.py", cname)
         m = ctx.repo.lookup(ci, member)
-        has = False
-        for n in ast.walk(m.node):
-            if isinstance(n, (ast.GeneratorExp, ast.ListComp)):
-                for g in n.generators:
-                    for cond in g.ifs:
-                        if u(cond) in ("idx not in hidden_idxs", "idx not in self._hidden_idxs"):
-                            has = True
-        ctx.ob("hidden-filter", f"collator.py::{cname}.{member}", has, True, has, "the assembled order keeps an idx only if it is not in the hidden set")
+        if m is None:
+            raise AnalysisError(f"collator.py::{cname}.{member} vanished")
+        value = SUMMARIZER.summarize(m.node)
+        leaks: List[str] = []
+        verdict = _unfiltered_sources(value, leaks)
+        where = f"collator.py::{cname}.{member}"
+        if verdict is False:
+            ctx.violated("hidden-filter", where, f"unfiltered source(s): {sorted(set(leaks))}", "every idx of the order passed `idx not in hidden`", "the assembled order keeps an idx only if it is not in the hidden set")
+        else:
+            ctx.ob("hidden-filter", where, u(value)[:160], "every idx of the order passed `idx not in hidden`", verdict, "the assembled order keeps an idx only if it is not in the hidden set")
         ctx.count("hidden filters")
     ctx.require_min("hidden filters", 3)
